@@ -304,6 +304,7 @@ func c01GenSrc(r *rand.Rand, idx int) c01Src {
 	default:
 		s.Nodes = c01GenNodes(r, idx, 0, 0, true, used)
 	}
+	s = c01MaybePad(r, s) // the size dimension (c01_sizes.go)
 	if r.Intn(9) == 0 {
 		s.Bad = 1 + r.Intn(3)
 	}
@@ -925,6 +926,9 @@ func c01Stats(r *Report, h []c01Op, steps []c01Step) (nontrivial bool) {
 	return
 }
 
+// what the implementation returned for the history c01Check saw last (for oracles that compute the expected bytes themselves)
+var c01LastSteps []c01Step
+
 // c01Check checks one history; pristineP = probability of re-rendering each render in a pristine process.
 func c01Check(e *Env, h []c01Op, tag string, pristineP float64, budget *int) (bool, error) {
 	r := e.Rep
@@ -937,6 +941,7 @@ func c01Check(e *Env, h []c01Op, tag string, pristineP float64, budget *int) (bo
 	if err != nil {
 		return false, err
 	}
+	c01LastSteps = steps
 	canon, _ := json.Marshal(c01OpsJSON(h))
 	nontrivial := c01Stats(r, h, steps)
 	r.Seen(tag+string(canon), nontrivial)
@@ -1100,7 +1105,7 @@ func runC01(e *Env) error {
 	r := e.Rep
 	r.Rule = "histories of 1–40 (thorough: up to 200) operations RegisterString / ParseTemplate / Render / SetCache / runtime.GC over 1–3 engines and 1–6 template names; " +
 		"templates from the grammar text | {{ var }} | if | for | include | extends+block | a call of an unknown function (fails at render) | three kinds of syntax error; " +
-		"a template refers only to lower-numbered names (acyclic). Every Render is compared with (1) a fresh engine holding the same templates in this process, " +
+		"a template refers only to lower-numbered names (acyclic); about one source in forty is padded to 2.6–21 KB (text, many small tags, or if/for bodies), the regression corpus runs again with every source padded along a falling and a rising ladder of lengths, and every ordered pair of (length, shape) kinds is parsed one after the other on three routes (also compared with a direct computation of the output). Every Render is compared with (1) a fresh engine holding the same templates in this process, " +
 		"(2) for a sample, a pristine child process, (3) the Lean model run pool-free and with pools under LIFO / FIFO / seeded-random Get oracles. " +
 		"plus attribute reads of 12 Go types met for the first time in every order of value/pointer and field/method (process-wide attribute cache; implementation-only). non-trivial = a render with non-empty output that follows at least one earlier parse or render; distinct by the operation list"
 	if e.Replay != "" {
@@ -1133,6 +1138,13 @@ func runC01(e *Env) error {
 		}
 	}
 	r.Sample(map[string]any{"kind": "corpus", "ops": c01OpsJSON(c01Corpus()[1])})
+	// the size dimension: long sources (another tokenizer, other buffer classes), see c01_sizes.go
+	if ok, err := c01SizeCorpus(e); err != nil || !ok {
+		return err
+	}
+	if ok, err := c01SizePairs(e); err != nil || !ok {
+		return err
+	}
 	// every pair (thorough: triple) of operations from a small alphabet between a fixed set-up and a fixed
 	// sequence of renders: three template shapes (blocks / include / extends)
 	alpha := c01Alphabet()
